@@ -58,9 +58,9 @@ func (World) Assumptions(prop string) []string {
 	case "C43":
 		return []string{
 			"every generated message asks the throttler: no self-to-self and no preferred-peer messages (those skip CanProcess by design)",
-			"a task is 'running' from the return of StartProcessing to its call of EndProcessing, as seen by the wrapper; a task parked at the EndProcessing seam no longer counts",
+			"a task is 'running' from the return of StartProcessing to its call of EndProcessing, as seen by the wrapper (attributed per task; a second EndProcessing of the same task is ignored); a task parked at the EndProcessing seam no longer counts; a task found inside a work seam (processor, trie read, send) after its EndProcessing still counts (kind work-after-end)",
 			"interleavings are decided at seam granularity (throttler calls, processor calls, trie reads, sends)",
-			"classification: the start that pushes the count above max is 'over-admission-sequential' if the count was already >= max when that task's CanProcess returned true, otherwise 'check-then-act' (another task started between its check and its start)",
+			"classification: the start that pushes the count above max is 'started-after-refusal' if that task's CanProcess had returned false, 'over-admission-sequential' if the count was already >= max when its CanProcess returned true, otherwise 'check-then-act' (another task started between its check and its start)",
 			"a task whose EndProcessing is never called is not a violation of this property (the count only stays high)",
 		}
 	}
@@ -78,7 +78,7 @@ func (World) Rule(prop string) string {
 }
 
 func (World) Budget(prop, tier string) int {
-	q := map[string]int{"C42": 100000, "C43": 60000}[prop]
+	q := map[string]int{"C42": 80000, "C43": 60000}[prop]
 	if tier == "thorough" {
 		return q * 30
 	}
